@@ -4,7 +4,7 @@ From Yv Require Export C06.LexEq C06.ParseEq C06.ProofsLen C06.ProofsFuel C06.Pr
   C06.ProofsTok C06.ProofsParse C06.ProofsTilde C06.ProofsNum C06.ProofsEscape C06.ProofsRtBase
   C06.ProofsRt C06.ProofsF14 C06.ProofsMono C06.ProofsTop C06.ProofsOp C06.ProofsToken C06.ProofsInner
   C06.ProofsRedir C06.SpecCmd C06.ProofsCmdBase C06.ProofsSimple C06.ProofsSimpleAux C06.ProofsSimpleFirst
-  C06.ProofsSimpleRun C06.ProofsCommand C06.ProofsList.
+  C06.ProofsSimpleRun C06.ProofsCommand C06.ProofsList C06.SpecCompound C06.ProofsCompound.
 
 Lemma oracle_accepts_errors : forall s, oracle PErr s = None.
 Proof. reflexivity. Qed.
